@@ -6,8 +6,9 @@
    and the recorded trace is validated by Trace_Rfc8888.
      SeqD   sequence deltas, coded: 1 2 5 = +1 +2 +5, 0 = duplicate of the highest, 101 103 = -1 -3,
             200 = wrap (forward to the next multiple of M when that is less than M/2 away, else +(M/2 - 1))
-     ClkA   clock advance (ms) before an arrival;  ClkB  clock advance before a report
-     Sizes  maximum report sizes;  PastSizes  sizes of reports built 1 ms *before* the latest arrival
+     ClkA   clock advance (MICROSECONDS) before an arrival;  ClkB  clock advance before a report; the fine values
+            sit just below / at / just above k/1024 s for k = 1, 8189, 8190, 8191, 8192 (k * 976.5625 us)
+     Sizes  maximum report sizes;  PastSizes  sizes of reports built 1 us *before* the latest arrival
      NS     number of SSRCs;  Jump  extra gap in the warm-up (so that the size limit cuts the block) *)
 EXTENDS Rfc8888, Json
 CONSTANTS NS, Base, L, SeqD, ClkA, ClkB, Sizes, PastSizes, Jump
@@ -22,8 +23,8 @@ BaseOf(s) == (Base + 7 * (s - 1)) % M
 \* warm-up: two packets per stream with one number missing in between (plus Jump)
 Warm == [i \in 1 .. 2 * NS |->
           LET s == (i + 1) \div 2 IN
-          IF i % 2 = 1 THEN AddEv(s, BaseOf(s), 10 * i, 0)
-          ELSE AddEv(s, (BaseOf(s) + 2 + Jump) % M, 10 * i, 2)]
+          IF i % 2 = 1 THEN AddEv(s, BaseOf(s), 10000 * i, 0)
+          ELSE AddEv(s, (BaseOf(s) + 2 + Jump) % M, 10000 * i, 2)]
 RECURSIVE Run(_, _, _)
 Run(s0, evs, i) == IF i > Len(evs) THEN s0
                    ELSE Run(RecAdd(s0, evs[i].s, evs[i].n, evs[i].t, evs[i].ecn), evs, i + 1)
@@ -35,16 +36,19 @@ Target(x, c) ==
   ELSE LET r == M - (x.last % M) IN IF r < H THEN x.last + r ELSE x.last + H - 1
 
 Init == /\ st = Run(<<>>, Warm, 1)
-        /\ clk = 10 * 2 * NS
+        /\ clk = 10000 * 2 * NS
         /\ hist = Warm
 N == Len(Warm) + L
+MaxClk == 2000000000                          \* every clock value stays below 2^31 microseconds
 Step == \/ \E s \in 1 .. NS, c \in SeqD, d \in ClkA :
             LET n == Target(st[s], c) % M
                 tm == clk + d
                 ecn == Len(hist) % 4
-            IN  /\ st' = RecAdd(st, s, n, tm, ecn) /\ clk' = tm
+            IN  /\ tm <= MaxClk
+                /\ st' = RecAdd(st, s, n, tm, ecn) /\ clk' = tm
                 /\ hist' = Append(hist, AddEv(s, n, tm, ecn))
         \/ \E ms \in Sizes, d \in ClkB :
+            /\ clk + d <= MaxClk
             /\ st' = BuildStep(st, clk + d, ms) /\ clk' = clk + d
             /\ hist' = Append(hist, BuildEv(clk + d, ms))
         \/ \E ms \in PastSizes :
